@@ -15,6 +15,15 @@ def sessionPreimage (a b : Bytes) : Bytes :=
 def protocolPreimage (sid pid ctx : Bytes) : Bytes :=
   sid ++ Uv.put pid.length ++ pid ++ ctx
 
+/-- The part of the `ComputeProtocolHash` preimage that precedes the protocol ID: it depends on the
+protocol ID through its LENGTH only (`protocolPreimage_eq_prefix`). The driver answers with it for
+protocol IDs of 64 KiB … 256 MiB, whose full preimage would not fit the line protocol. -/
+def protocolPrefix (sid : Bytes) (pidLen : Nat) : Bytes :=
+  sid ++ Uv.put pidLen
+
+theorem protocolPreimage_eq_prefix (sid pid ctx : Bytes) :
+    protocolPreimage sid pid ctx = protocolPrefix sid pid.length ++ pid ++ ctx := rfl
+
 def sessionID (H : Bytes → Bytes) (a b : Bytes) : Bytes := H (sessionPreimage a b)
 def protocolHash (H : Bytes → Bytes) (sid pid ctx : Bytes) : Bytes := H (protocolPreimage sid pid ctx)
 
